@@ -480,11 +480,14 @@ class Interp:
             raise Beyond("for loop")
         v = self.ev(e["e"], env)
         for arm in e["arms"]:
-            e2 = dict(env)
-            if self.match(arm["p"], v, e2):
-                if "g" in arm and not self.cond(arm["g"], e2):
-                    continue
-                return self.ev(arm["b"], e2)
+            # an arm `p | q if guard`: the guard is evaluated for every alternative that matches, in order
+            alts = arm["p"]["a"] if arm["p"].get("k") == "or" and "g" in arm else [arm["p"]]
+            for alt in alts:
+                e2 = dict(env)
+                if self.match(alt, v, e2):
+                    if "g" in arm and not self.cond(arm["g"], e2):
+                        continue
+                    return self.ev(arm["b"], e2)
         raise Panic("no match arm applies to %r" % (v,))
 
     def ev_cast(self, e, env):
